@@ -5,49 +5,238 @@ Each property has `groups` (a harness crate + feature set) of harness entries:
 """
 
 FMT_STUB = "alloc::fmt::format -> empty String (error messages are not part of any property; error variants are preserved)"
+CLOSE_STUB = "<OwnedFd as Drop>::drop -> no-op (environment: close(2) and std's debug fcntl probe that formats to stderr)"
+FORGET = "results are inspected by reference and mem::forget-ed in the harness (the recursive drop glue of zvariant::Error/Signature is not part of any property)"
+RECB = "recursion of drop_glue::<Signature>/Signature::clone bounded by --unwindset (1 or 2); the generated recursion unwinding assertions must hold for a harness to count"
+
 
 def H(name, tier="quick", **kw):
     d = {"name": name, "tier": tier}
     d.update(kw)
     return d
 
+
+REC1 = {r"std::ptr::drop_glue::<[\w:]*Signature>": 1, r"<[\w:]*Signature as std::clone::Clone>::clone": 1}
+ZV = {"crate": "kani/zv", "selftest": True}
+ZV_GV = {"crate": "kani/zv", "features": ["gvariant"], "target": "zv-gv"}
+ZV_INCRATE = {"crate": "/repo/zvariant", "in_repo": True, "in_crate_file": "zvariant.rs", "target": "zvariant-incrate"}
+ZV_INCRATE_GV = dict(ZV_INCRATE, features=["gvariant"], target="zvariant-incrate-gv")
+ZB_INCRATE = {"crate": "/repo/zbus", "in_repo": True, "target": "zbus-incrate"}
+LEAF_BOUNDS = "value fully symbolic; message offset 0..15 symbolic; byte order symbolic; unwind 9"
+
 PROPS = {}
+
+# ------------------------------------------------------------------ C01
+PROPS["C01"] = {
+    "bounds": "leaf signatures y b n q i u x t d (every value), s o (text of 0..=3 ASCII bytes) at every message offset 0..15 and both byte orders, "
+              "through the public to_writer_for_signature / serialized_size; padding kernel for every usize and alignment 1/2/4/8",
+    "outside": "container signatures (arrays, dicts, structs, variants) and file descriptors through the whole API: CBMC does not fit them in 20 GB "
+               "(DESIGN.md §9); strings longer than 3 bytes; non-ASCII text",
+    "assumptions": [FMT_STUB, CLOSE_STUB, FORGET, RECB,
+                    "reference marshaller kani/zv/src/refmodel/dbus.rs is the specification (validated natively against spec examples and the real encoder on every run)"],
+    "level_text": "Bounded model checking of the real serializer compiled by Kani: for every value of each leaf type, every message offset 0..15 and both byte "
+                  "orders, CBMC proves the produced bytes equal an independent spec marshaller and that the size pass agrees. Tests sample a few values at offset 0.",
+    "level_note": "bounded to leaf signatures (containers are outside the claim, see evidence.outside_claim); trusts Kani/CBMC, the stubs listed in assumptions and the reference marshaller",
+    "groups": [
+        dict(ZV, harnesses=
+             [H("c01_enc_%s" % t, "quick" if t in "ut" else "thorough", timeout=1200, cost=90, recursion_bounds=REC1, bounds=LEAF_BOUNDS,
+                asserts="to_writer_for_signature bytes and length == independent spec marshaller") for t in "ybnqiuxtd"] +
+             [H("c01_enc_%s" % t, "quick" if t == "s" else "thorough", timeout=1500, cost=150, recursion_bounds=REC1,
+                bounds="text 0..=3 symbolic ASCII bytes; offset 0..15; byte order symbolic; unwind 9",
+                asserts="bytes and length == spec marshaller (u32 length, text, NUL)") for t in "so"] +
+             [H("c01_size_%s" % t, "quick" if t in "u" else "thorough", timeout=900, cost=60, recursion_bounds=REC1, bounds=LEAF_BOUNDS,
+                asserts="serialized_size().size() == bytes the rules prescribe; num_fds == 0") for t in "yqutb"]),
+        dict(ZV_INCRATE, harnesses=[
+            H("c01_padding_kernel", "quick", timeout=300, cost=10, bounds="value: every usize; align in {1,2,4,8}",
+              asserts="padding_for_n_bytes(value, align) == (-value) mod align"),
+        ]),
+    ],
+}
+
+# ------------------------------------------------------------------ C02
+PROPS["C02"] = {
+    "claimed": False,
+    "bounds": "leaf signatures, D-Bus and GVariant, offsets 0..7, both byte orders",
+    "outside": "containers, HashMap, Option, derived structs/enums, Value",
+    "assumptions": [FMT_STUB, CLOSE_STUB, FORGET, RECB],
+    "level_text": "Bounded model checking of encode followed by decode on the compiled code for every value of each leaf type.",
+    "level_note": "bounded to leaf signatures",
+    "groups": [
+        dict(ZV, harnesses=
+             [H("c02_rt_dbus_%s" % t, "quick" if t in "ud" else "thorough", timeout=1500, cost=200, recursion_bounds=REC1,
+                bounds="value symbolic; offset 0..7; byte order symbolic; 16-byte buffer",
+                asserts="decode(encode(v)) == v (bitwise for f64) and consumed == encoded length") for t in "ybnqiuxtd"] +
+             [H("c02_rt_dbus_s", "thorough", timeout=1800, cost=400, recursion_bounds=REC1, mem_gb=20,
+                bounds="text 0..=3 ASCII bytes; offset 0..3", asserts="round trip text and consumed length")]),
+        dict(ZV_GV, harnesses=
+             [H("c02_rt_gv_%s" % t, "quick" if t in "u" else "thorough", timeout=1500, cost=200, recursion_bounds=REC1,
+                bounds="GVariant; value symbolic; offset 0..7; byte order symbolic",
+                asserts="decode(encode(v)) == v and consumed == encoded length") for t in "ybqutd"] +
+             [H("c02_rt_gv_s", "thorough", timeout=1800, cost=400, recursion_bounds=REC1, mem_gb=20,
+                bounds="GVariant; text 0..=3 ASCII bytes; offset 0..3", asserts="round trip text and consumed length")]),
+    ],
+}
+
+# ------------------------------------------------------------------ C03
+PROPS["C03"] = {
+    "claimed": False,
+    "bounds": "fixed-size leaf signatures on 16 arbitrary bytes (length 0..=16, offset 0..7, both byte orders); s/o on 8 arbitrary bytes",
+    "outside": "containers and variants",
+    "assumptions": [FMT_STUB, CLOSE_STUB, FORGET, RECB],
+    "level_text": "Bounded model checking of the real D-Bus deserializer on fully symbolic input buffers against an independent validating reader.",
+    "level_note": "bounded to leaf signatures",
+    "groups": [
+        dict(ZV, harnesses=
+             [H("c03_dec_%s" % t, "quick" if t in "ub" else "thorough", timeout=900, cost=60, recursion_bounds=REC1,
+                bounds="16 symbolic bytes, length 0..=16 symbolic, offset 0..7, byte order symbolic, unwind 9",
+                asserts="Ok iff the spec reader accepts; equal value and consumed count") for t in "ynqiuxtdb"] +
+             [H("c03_dec_%s" % t, "thorough", timeout=1500, cost=200, recursion_bounds=REC1, mem_gb=20,
+                bounds="8 symbolic bytes, length 0..=8 symbolic, offset 0..3, byte order symbolic, unwind 10",
+                asserts="Ok iff the spec reader accepts (zero padding, length inside buffer, NUL terminator, no interior NUL, UTF-8, path grammar); equal text and consumed count") for t in "so"]),
+    ],
+}
+
+# ------------------------------------------------------------------ C04
+PROPS["C04"] = {
+    "claimed": False,
+    "bounds": "leaf signatures, GVariant typed and D-Bus dynamic (Value) targets on <= 12 arbitrary bytes; framing-offset table decode on <= 6 bytes",
+    "outside": "containers; option-as-array",
+    "assumptions": [FMT_STUB, CLOSE_STUB, FORGET, RECB],
+    "level_text": "Kani's own checks (panic, unwrap/expect, unreachable, overflow, out-of-bounds) on the real decoders for every input within the bound.",
+    "level_note": "bounded to leaf signatures and the framing-offset kernel",
+    "groups": [
+        dict(ZV_GV, harnesses=
+             [H("c04_gv_dec_%s" % t, "quick" if t in "us" else "thorough", timeout=1200, cost=120, recursion_bounds=REC1, mem_gb=16,
+                bounds="GVariant, arbitrary bytes (4..12), length symbolic, offset 0..7, byte order symbolic",
+                asserts="no panic/overflow/out-of-bounds; consumed <= input length") for t in "ybqutds"]),
+        dict(ZV, harnesses=
+             [H("c04_dbus_dyn_%s" % t, "quick" if t in "u" else "thorough", timeout=1200, cost=120, recursion_bounds=REC1, mem_gb=16,
+                bounds="D-Bus, Value target for a leaf signature, 8 arbitrary bytes",
+                asserts="no panic/overflow/out-of-bounds; consumed <= input length") for t in "ubs"]),
+        dict(ZV_INCRATE_GV, harnesses=[
+            H("c04_framing_offsets_decode_total", "quick", timeout=900, cost=150,
+              bounds="container of 0..=6 arbitrary bytes", asserts="FramingOffsets::from_encoded_array never panics; offsets <= start of table; count consistent"),
+        ]),
+    ],
+}
+
+# ------------------------------------------------------------------ C05
+PROPS["C05"] = {
+    "claimed": False,
+    "bounds": "framing-offset width selection for every (len, n) with len <= 2^62, n <= 2^58; offset write/read for every width and every representable offset",
+    "outside": "whole-value GVariant encodings (containers)",
+    "assumptions": [FMT_STUB, FORGET],
+    "level_text": "Bounded model checking of the GVariant framing-offset kernels with fully symbolic sizes (the 255/65535 thresholds are decided symbolically).",
+    "level_note": "kernel level only",
+    "groups": [
+        dict(ZV_INCRATE_GV, harnesses=[
+            H("c05_offset_size_selection", "quick", timeout=600, cost=10, bounds="len <= 2^62, n <= 2^58 symbolic",
+              asserts="for_bare_container == smallest w in {1,2,4,8} with len + n*w <= 2^(8w)-1"),
+            H("c05_offset_write_read_inverse", "quick", timeout=600, cost=10, bounds="width symbolic, offset symbolic (representable)",
+              asserts="write_offset emits exactly w little-endian bytes; read_last_offset_from_buffer inverts it"),
+        ]),
+    ],
+}
+
+# ------------------------------------------------------------------ C07
+PROPS["C07"] = {
+    "claimed": False,
+    "bounds": "every reachable depth-counter state; one inc/dec step of every kind",
+    "outside": "call sites in the four (de)serializers (not yet fitting)",
+    "assumptions": [FORGET, RECB, "symbolic counter state is written into ContainerDepths through a byte layout measured on the compiled type"],
+    "level_text": "Inductive step: from every counter state satisfying the invariant, one increment of each kind errs exactly when a limit is exceeded.",
+    "level_note": "counter algebra only",
+    "groups": [dict(ZV_INCRATE, harnesses=[
+        H("c07_depths_step", timeout=900, cost=120,
+          bounds="every counter state (s<=32, a<=32, v<=64, sum<=64), one inc/dec step of each kind",
+          asserts="inc_* errs exactly when the limit is exceeded with the documented kind; dec_* inverts inc_*; no u8 overflow"),
+    ]), dict(ZV_INCRATE_GV, harnesses=[
+        H("c07_depths_step", timeout=900, cost=120,
+          bounds="gvariant build (maybe counter included): every counter state, one step of each kind",
+          asserts="as above, including inc_maybe/dec_maybe"),
+    ])],
+}
 
 # ------------------------------------------------------------------ C10
 _names = ["unique", "wellknown", "busname", "interface", "error", "member", "property", "objpath"]
 PROPS["C10"] = {
     "bounds": "every byte string of length 0..=4 (all 2^32 contents, UTF-8 checked by the real core::str::from_utf8) "
               "and every ASCII string of length 0..=6 per type; TryFrom<Value> route with ASCII strings 0..=4",
-    "outside": "strings longer than 6 bytes (incl. the 255-byte limit, decided separately by the length harnesses), "
-               "Deserialize route goes through the same try_from (read, not encoded)",
+    "outside": "strings longer than 6 bytes (incl. the 255-byte limit), GUIDs, the Deserialize route (calls the same try_from; read, not encoded)",
     "assumptions": [
-        FMT_STUB,
+        FMT_STUB, FORGET,
         "reference recognisers in kani/names/src/refmodel.rs are the specification (validated natively against the repo's documented examples on every run)",
         "UniqueName additionally accepts the literal 'org.freedesktop.DBus' (documented zbus exception, encoded in the model)",
-        "results of try_from are mem::forget-ed in the harness (drop glue of zvariant::Error is not part of the property)",
     ],
+    "level_text": "Bounded model checking of the real validators (winnow parsers in zbus_names / zvariant::ObjectPath) compiled by Kani: "
+                  "for every byte string up to the stated length the solver proves acceptance equals an independent spec recogniser, "
+                  "on every construction route harnessed. Tests sample a handful of names; here all 2^32 4-byte strings (and all 6-byte ASCII strings) are decided.",
+    "level_note": "bounded (strings <= 4 bytes arbitrary, <= 6 bytes ASCII); trusts Kani/CBMC, the format! stub, and the reference recognisers (validated natively against the repo's examples each run)",
     "groups": [{
         "crate": "kani/names", "selftest": True,
         "harnesses":
-            [H("c10_%s_str4" % n, "quick", timeout=600, cost=70,
+            [H("c10_%s_str4" % n, "quick", timeout=900, cost=70,
                bounds="[u8;4] symbolic, len 0..=4 symbolic, from_utf8 real, unwind 8",
                asserts="try_from(&str).is_ok() == spec recogniser") for n in _names] +
-            [H("c10_%s_ascii6" % n, "thorough", timeout=1800, cost=300,
+            [H("c10_%s_ascii6" % n, "thorough", timeout=2400, cost=300,
                bounds="[u8;6] symbolic ASCII, len 0..=6 symbolic, unwind 9",
                asserts="try_from(&str).is_ok() == spec recogniser") for n in _names if n != "property"] +
-            [H("c10_%s_value4" % n, "quick", timeout=600, cost=70, role=("main" if n == "busname" else "witness"),
+            [H("c10_%s_value4" % n, "quick", timeout=900, cost=70, role=("main" if n == "busname" else "witness"),
                bounds="Value::Str of [u8;4] symbolic ASCII, len 0..=4, unwind 7",
                asserts="TryFrom<Value>.is_ok() == spec recogniser") for n in _names if n != "objpath"],
     }],
 }
 
+# ------------------------------------------------------------------ C15
+PROPS["C15"] = {
+    "bounds": "process-wide counter state: every u32 value (including 0 and the wrap boundary u32::MAX); 2 and 3 consecutive messages",
+    "outside": "real multi-threaded interleavings: Kani does not model threads; concluded from the per-call step facts plus the atomicity of fetch_add (trusted), see assumptions",
+    "assumptions": [
+        "AtomicU32::fetch_add is an atomic read-modify-write: every counter value is returned to exactly one caller per 2^32 window (trusted axiom; Kani treats atomics sequentially)",
+        "PrimaryHeader::new touches SERIAL_NUM only through fetch_add (structural fact checked by the step harness: the counter advances by exactly the number of values handed out)",
+    ],
+    "level_text": "Bounded model checking of PrimaryHeader::new from an arbitrary counter state (private static set through the cfg(kani) hook): the solver proves, "
+                  "for all 2^32 states, that the serial is non-zero, is the counter value (zero skipped), the counter advances exactly, and consecutive serials differ - "
+                  "including the wrap-around boundary no test reaches.",
+    "level_note": "sequential step facts for every state; thread interleavings rest on the atomic-RMW axiom listed in assumptions",
+    "groups": [dict(ZB_INCRATE, in_crate_file="zbus_header.rs", harnesses=[
+        H("c15_serial_step", timeout=1500, cost=60, bounds="counter state: every u32 (incl. 0 and u32::MAX); two consecutive PrimaryHeader::new calls",
+          asserts="serial != 0; serial == c (or 1 when c == 0); counter advances exactly; consecutive serials differ"),
+        H("c15_serial_three_distinct", timeout=1500, cost=60, bounds="counter state: every u32; three consecutive calls",
+          asserts="pairwise distinct, non-zero"),
+    ])],
+}
+
+# ------------------------------------------------------------------ C23
+PROPS["C23"] = {
+    "claimed": False,
+    "bounds": "percent-decoding of every ASCII string of 0..=4 bytes; percent-encoding of every byte string of 0..=3 bytes",
+    "outside": "whole Address::from_str (winnow + HashMap), transports",
+    "assumptions": [FMT_STUB, FORGET],
+    "level_text": "Bounded model checking of the percent-coding kernels against the spec's escaping rule.",
+    "level_note": "kernel level",
+    "groups": [dict(ZB_INCRATE, in_crate_file="zbus_address.rs", harnesses=[
+        H("c23_decode_percents_exact", timeout=1800, cost=300, bounds="every ASCII string of 0..=4 bytes", asserts="decode_percents == reference percent-decoder (accept/reject and bytes)"),
+        H("c23_encode_percents_roundtrip", timeout=1800, cost=300, bounds="every byte string of 0..=3 bytes, through core::fmt", asserts="escaping rule, and reference-decode(encode(x)) == x"),
+    ])],
+}
+
+# ------------------------------------------------------------------ probes (not claimed, development only)
+PROPS["PROBE7"] = {"claimed": False, "groups": [dict(ZV_INCRATE, harnesses=[
+    H("c01_seq_t_conc", timeout=2400, mem_gb=50, recursion_bounds=REC1)])]}
+PROPS["PROBE8"] = {"claimed": False, "groups": [dict(ZV_INCRATE, harnesses=[
+    H("c07_site_ser_struct", timeout=1200), H("c07_site_ser_array", timeout=1200),
+    H("c07_site_de_struct", timeout=1200), H("c07_site_de_array", timeout=1200)])]}
+PROPS["PROBE6"] = {"claimed": False, "groups": [{"crate": "kani/sig", "harnesses": [
+    H("c06_validate_len2", timeout=3000, mem_gb=24), H("c06_validate_len3", timeout=3000, mem_gb=24)]}]}
+
 # ------------------------------------------------------------------ manifest-level data
 HOOKS = {
     "guard": "cfg(kani)",
     "enable": "set automatically by the Kani compiler (`cargo kani` passes --cfg kani); normal cargo builds never set it, so the guarded "
-              "`#[cfg(kani)] #[path = \"/verif/in_crate/<crate>.rs\"] mod verif_kani;` lines compile to nothing",
+              "`#[cfg(kani)] #[path = \"/verif/in_crate/<file>.rs\"] mod verif_kani;` lines compile to nothing",
     "baseline_off_cmd": "cd /repo && cargo test --workspace --no-fail-fast --offline",
-    "source_commits": [],
+    "source_commits": ["bf0a9fd3", "474e4624"],
     "add_only": True,
 }
 
@@ -71,101 +260,4 @@ NOT_APPLICABLE = {
     "C37": "bus match registrations: refcount map + async AddMatch/RemoveMatch calls + deferred drops; histories under schedules",
     "C38": "transport failures end pending work: about tasks and channels; only the per-read failure part is sequential (covered in C14 where claimed)",
     "C39": "drop / graceful shutdown: lifetime of Arcs across tasks, peer-visible close, executor draining",
-}
-
-PROPS["C10"].update({
-    "level_text": "Bounded model checking of the real validators (winnow parsers in zbus_names / zvariant::ObjectPath) compiled by Kani: "
-                  "for every byte string up to the stated length the solver proves acceptance equals an independent spec recogniser, "
-                  "on every construction route harnessed. Tests sample a handful of names; here all 2^32 4-byte strings (and all 6-byte ASCII strings) are decided.",
-    "level_note": "bounded (strings <= 4 bytes arbitrary, <= 6 bytes ASCII; 255-byte limit by separate fixed-shape harnesses); trusts Kani/CBMC, the format! stub, and the reference recognisers (validated natively against the repo's examples each run)",
-})
-
-# ------------------------------------------------------------------ shared
-REC1 = {r"std::ptr::drop_glue::<[\w:]*Signature>": 1, r"<[\w:]*Signature as std::clone::Clone>::clone": 1}
-CLOSE_STUB = "<OwnedFd as Drop>::drop -> no-op (environment: close(2) and std's debug fcntl probe)"
-ZV = {"crate": "kani/zv", "selftest": True}
-ZV_INCRATE = {"crate": "/repo/zvariant", "in_repo": True, "in_crate_file": "zvariant.rs", "target": "zvariant-incrate"}
-ZV_INCRATE_GV = dict(ZV_INCRATE, features=["gvariant"], target="zvariant-incrate-gv")
-
-LEAF_BOUNDS = "value fully symbolic; message offset 0..15 symbolic; byte order symbolic; unwind 9"
-
-# ------------------------------------------------------------------ C01
-PROPS["C01"] = {
-    "claimed": False,
-    "groups": [
-        dict(ZV, harnesses=
-             [H("c01_enc_%s" % t, "quick" if t in "ut" else "thorough", timeout=900, cost=90, recursion_bounds=REC1, bounds=LEAF_BOUNDS,
-                asserts="to_writer_for_signature bytes and length == independent spec marshaller") for t in "ybnqiuxtd"] +
-             [H("c01_enc_%s" % t, "quick" if t == "s" else "thorough", timeout=900, cost=150, recursion_bounds=REC1,
-                bounds="text 0..=3 symbolic ASCII bytes; offset 0..15; byte order symbolic; unwind 9",
-                asserts="bytes and length == spec marshaller (u32 length, text, NUL)") for t in "so"] +
-             [H("c01_size_%s" % t, "quick" if t in "u" else "thorough", timeout=900, cost=60, recursion_bounds=REC1, bounds=LEAF_BOUNDS,
-                asserts="serialized_size().size() == bytes the rules prescribe; num_fds == 0") for t in "yqutb"]),
-        dict(ZV_INCRATE, harnesses=[
-            H("c01_padding_kernel", "quick", timeout=300, cost=10, bounds="value: every usize; align in {1,2,4,8}",
-              asserts="padding_for_n_bytes(value, align) == (-value) mod align"),
-        ]),
-    ],
-}
-
-# ------------------------------------------------------------------ C03
-PROPS["C03"] = {
-    "claimed": False,
-    "groups": [
-        dict(ZV, harnesses=
-             [H("c03_dec_%s" % t, "quick" if t in "ub" else "thorough", timeout=900, cost=60, recursion_bounds=REC1,
-                bounds="16 symbolic bytes, length 0..=16 symbolic, offset 0..7, byte order symbolic, unwind 9",
-                asserts="Ok iff the spec reader accepts; equal value and consumed count") for t in "ynqiuxtdb"] +
-             [H("c03_dec_%s" % t, "quick" if t == "s" else "thorough", timeout=1500, cost=200, recursion_bounds=REC1,
-                bounds="10 symbolic bytes, length 0..=10 symbolic, offset 0..3, byte order symbolic, unwind 12",
-                asserts="Ok iff the spec reader accepts (zero padding, length inside buffer, NUL terminator, no interior NUL, UTF-8, path grammar); equal text and consumed count") for t in "so"]),
-    ],
-}
-
-# ------------------------------------------------------------------ probes (not claimed)
-SIG_REC = {
-    r"std::ptr::drop_glue::<zvariant::Signature>": 2,
-    r"<zvariant::Signature as std::clone::Clone>::clone": 2,
-}
-REC1 = {r"std::ptr::drop_glue::<[\w:]*Signature>": 1, r"<[\w:]*Signature as std::clone::Clone>::clone": 1}
-PROPS["PROBE"] = {"claimed": False, "groups": [{"crate": "kani/zv", "harnesses": [
-    H("p_enc_u32", timeout=900, recursion_bounds=REC1),
-    H("p_enc_yu", timeout=900, recursion_bounds=REC1),
-    H("p_dec_yu", timeout=900, recursion_bounds=REC1),
-]}]}
-
-# ------------------------------------------------------------------ C07
-PROPS["C07"] = {
-    "claimed": False,
-    "groups": [dict(ZV_INCRATE, harnesses=[
-        H("c07_depths_step", timeout=900, cost=120,
-          bounds="every reachable counter state (s<=32, a<=32, v<=64, sum<=64), one inc/dec step of each kind, unwind 66",
-          asserts="inc_* errs exactly when the limit is exceeded with the documented kind; dec_* inverts inc_*; no u8 overflow"),
-    ])],
-}
-REC1 = {r"std::ptr::drop_glue::<[\w:]*Signature>": 1, r"<[\w:]*Signature as std::clone::Clone>::clone": 1}
-PROPS["PROBE2"] = {"claimed": False, "groups": [{"crate": "kani/zv", "harnesses": [
-    H("q_a", timeout=400, recursion_bounds=REC1), H("q_b", timeout=400, recursion_bounds=REC1), H("q_c", timeout=400, recursion_bounds=REC1)]}]}
-PROPS["PROBE3"] = {"claimed": False, "groups": [dict(ZV_INCRATE, features=["gvariant"], target="zvariant-incrate-gv", harnesses=[
-    H("c01_padding_kernel", timeout=300), H("c05_offset_size_selection", timeout=300),
-    H("c05_offset_write_read_inverse", timeout=300), H("c04_framing_offsets_decode_total", timeout=600)])]}
-PROPS["PROBE4"] = {"claimed": False, "groups": [{"crate": "kani/zv", "harnesses": [
-    H("r1", timeout=500, recursion_bounds=REC1), H("r2", timeout=500, recursion_bounds=REC1),
-    H("r3", timeout=500, recursion_bounds=REC1), H("r4", timeout=500, recursion_bounds=REC1)]}]}
-PROPS["PROBE5"] = {"claimed": False, "groups": [{"crate": "kani/zv", "harnesses": [
-    H("r1", timeout=600, recursion_bounds=REC1, kani_args=["--no-default-checks"]),
-    H("r3", timeout=600, recursion_bounds=REC1, kani_args=["--no-default-checks"])]}]}
-PROPS["PROBE6"] = {"claimed": False, "groups": [{"crate": "kani/sig", "harnesses": [
-    H("c06_validate_len2", timeout=3000, mem_gb=24), H("c06_validate_len3", timeout=3000, mem_gb=24)]}]}
-
-# ------------------------------------------------------------------ C15
-ZB_INCRATE = {"crate": "/repo/zbus", "in_repo": True, "target": "zbus-incrate"}
-PROPS["C15"] = {
-    "claimed": False,
-    "groups": [dict(ZB_INCRATE, in_crate_file="zbus_header.rs", harnesses=[
-        H("c15_serial_step", timeout=900, cost=60, bounds="counter state: every u32 (incl. 0 and u32::MAX); two consecutive PrimaryHeader::new calls",
-          asserts="serial != 0; serial == c (or 1 when c == 0); counter advances exactly; consecutive serials differ"),
-        H("c15_serial_three_distinct", timeout=900, cost=60, bounds="counter state: every u32; three consecutive calls",
-          asserts="pairwise distinct, non-zero"),
-    ])],
 }
